@@ -19,7 +19,7 @@ SPEC_BUILTINS = {
     "allocated", "content_unchanged", "field_unchanged", "is_none", "not_none", "seq_len", "seq_at", "disjoint",
     "mmap_of", "mset_of", "let", "Real", "Int", "TRUE", "FALSE", "INF", "null", "mset_remove", "same_object",
     "is_open_state", "lemma", "select", "store", "trunc0", "cls_of", "idiv", "imod", "to_real", "to_int", "floor",
-    "inflt", "clock", "at_suspend", "ENTRY", "mkval", "val_at", "mset_single", "mmap_empty", "mmap_put", "pure_call", "unchanged_except", "xor", "distinct",
+    "inflt", "clock", "at_suspend", "ENTRY", "mkval", "val_at", "mmap_add", "mmap_sub", "mset_single", "mmap_empty", "mmap_put", "pure_call", "unchanged_except", "xor", "distinct",
 }
 
 unit = z3.Function("unit", z3.IntSort(), z3.RealSort())
@@ -45,7 +45,15 @@ def field_id(attr):
     return z3.IntVal(_FIELD_IDS[attr])
 
 
-QFUNS = {"q_down": q_down, "q_up": q_up, "q_he": q_he}
+def _sym(f):
+    # ROUND_DOWN / ROUND_UP / ROUND_HALF_EVEN are odd functions: q(-x) = -q(x).  Normalising through |x| lets the
+    # solver identify q(-a) with -q(a) without an extra axiom.
+    def g(x, p):
+        return z3.If(x >= 0, f(x, p), -f(-x, p))
+    return g
+
+
+QFUNS = {"q_down": _sym(q_down), "q_up": _sym(q_up), "q_he": _sym(q_he)}
 
 
 def floordiv(x, y):
